@@ -96,6 +96,12 @@ def runCli (env : Env) (parts : List String) : Resp :=
   | ["cli.hash_message", d] => match unhex d with
     | some d => .ok [hx (Cli.hashMessage X d)]
     | none => .harness "bad arg"
+  | ["cli.hash_message_rep", n, b] => match n.toNat?, b.toNat? with
+    | some n, some b => .ok [hx (Cli.hashMessage X (List.replicate n (UInt8.ofNat b)))]
+    | _, _ => .harness "bad arg"
+  | ["cli.hash_data_rep", n, b] => match n.toNat?, b.toNat? with
+    | some n, some b => .ok [hx (Cli.hashData X (List.replicate n (UInt8.ofNat b)))]
+    | _, _ => .harness "bad arg"
   | ["cli.hash_tx", j, sig] => match unhex j, (if sig == "none" then some none else (utf8Arg sig).map some) with
     | some j, some sig => cliOut (Cli.hashTx X j sig)
     | _, _ => .harness "bad arg"
@@ -461,6 +467,37 @@ def judgeCli (env : Env) (parts : List String) (resp : String) : Judge.Verdict :
   | ["cli.hex_decode", d] => match unhex d with
     | some b => Judge.judgeHexDecode b resp
     | none => .skip
+  | ["cli.hash_message", m] => match unhex m with
+    | some m => Judge.judgeCliDigest (Judge.eip191 m) resp
+    | none => .skip
+  | ["cli.hash_message_rep", n, b] => match n.toNat?, b.toNat? with
+    | some n, some b => Judge.judgeCliDigest (Judge.eip191 (List.replicate n (UInt8.ofNat b))) resp
+    | _, _ => .skip
+  | ["cli.hash_data", m] => match unhex m with
+    | some m => Judge.judgeCliDigest (Prim.keccak256 m) resp
+    | none => .skip
+  | ["cli.hash_data_rep", n, b] => match n.toNat?, b.toNat? with
+    | some n, some b => Judge.judgeCliDigest (Prim.keccak256 (List.replicate n (UInt8.ofNat b))) resp
+    | _, _ => .skip
+  | [cmd, mn, pw, sel] =>
+    if cmd == "cli.address" || cmd == "cli.export" || cmd == "cli.public_key" then
+      match acctArg mn pw sel with
+      | some a =>
+        match Cli.privateKey X a with
+        | .ok d =>
+          -- the key comes from the (proved) selection model; the *formatting* is judged independently
+          match Prim.Secp.mulG d with
+          | some (x, y) =>
+            let want :=
+              if cmd == "cli.export" then "0x" ++ Judge.lowerHexFixed d 64
+              else if cmd == "cli.public_key" then "0x04" ++ Judge.lowerHexFixed x 64 ++ Judge.lowerHexFixed y 64
+              else Judge.eip55 ((Prim.keccak256 (beFixed 32 x ++ beFixed 32 y)).drop 12)
+            Judge.expect (resp == "ok " ++ hx (want ++ "\n").toUTF8.toList)
+              "output must be the EIP-55 address / 0x + 64 hex digits of the secret / 0x04 + 128 hex digits of the coordinates, and a newline"
+          | none => .skip
+        | _ => Judge.expect (resp == "err") "no key can be selected: must be an error with no output"
+      | none => .skip
+    else .skip
   | ["cli.prefix_parse", pre] =>
     match utf8Arg pre with
     | some pre =>
